@@ -189,7 +189,9 @@ HOSTILE = ["sub", ".", "nosuchfile.conf", "package:nosuchpkg9:x",
            "%41.conf", "b.conf?x=1", "http://127.0.0.1:abc/x",
            "http://127.0.0.1:99999/x", "latin1.conf", "binary.conf",
            "utf16.conf", "http://[::1]:x/", "ftp://127.0.0.1:1/x",
-           "file:///dev/null", "data:,k%20v"]
+           "file:///dev/null", "data:,k%20v", "http://[::1/x#frag",
+           "http://[::1#f", "//[::1/x", "http://a b/#", "x#", "#",
+           "file:#f", "http://[v1.x]/#a"]
 
 
 def include_case(rng, root):
@@ -237,6 +239,83 @@ def do_include(ctx, schema, rng, dirpath, files=None):
                                 for t in files.values())))
     report(ctx.res, "include", [h[:12] for h in hostile][:3],
            {"files": files, "family": "include"}, cls, e)
+    # the same graph entered through a resource that has no URL (an open
+    # stream without a name): its references to the three files are written
+    # as absolute paths, everything below is unchanged
+    top = files.get("a.conf", "")
+    for n in ("a.conf", "b.conf", "c.conf"):
+        top = top.replace("%include " + n + "\n",
+                          "%include " + os.path.join(dirpath, n) + "\n")
+    ctx.res.evaluations += 1
+    ctx.res.count("include_cases_without_url")
+    cls, e = run_entry(lambda: ZConfig.loadConfigFile(
+        schema, io.StringIO(top)))
+    report(ctx.res, "include", ["nourl"] + [h[:12] for h in hostile][:2],
+           {"files": files, "family": "include", "entry": "nourl"}, cls, e)
+    # and through the validator: the three files on the command line, then
+    # the first one on standard input
+    if rng.random() < 0.3:
+        include_validator(ctx, schema, dirpath, files, top)
+
+
+class PipeStdin(io.StringIO):
+    def isatty(self):
+        return False
+
+
+def include_validator(ctx, schema, dirpath, files, top):
+    import ZConfig
+    from ZConfig import validator
+    from . import c06
+    sp = os.path.join(dirpath, "schema.xml")
+    with open(sp, "w") as f:
+        f.write(c06.DEFINE_SCHEMA)
+    names = sorted(n for n in files if n.endswith(".conf"))
+    for mode in ("files", "stdin"):
+        invalid = 0
+        escaped = False
+        if mode == "files":
+            for n in names:
+                cls, _ = run_entry(lambda: ZConfig.loadConfig(
+                    schema, os.path.join(dirpath, n)))
+                invalid += cls != "ok"
+                escaped = escaped or cls not in ("ok", "config")
+            argv = ["-s", sp] + [os.path.join(dirpath, n) for n in names]
+        else:
+            cls, _ = run_entry(lambda: ZConfig.loadConfigFile(
+                schema, io.StringIO(top)))
+            invalid += cls != "ok"
+            escaped = cls not in ("ok", "config")
+            argv = ["-s", sp]
+        if escaped:
+            ctx.res.count("validator_skipped_internal")
+            continue
+        err = CountingStderr()
+        ctx.res.evaluations += 1
+        ctx.res.count("validator_runs")
+        ctx.res.count("validator_runs_" + mode)
+        saved = sys.stdin
+        sys.stdin = PipeStdin(top)
+        try:
+            with contextlib.redirect_stderr(err):
+                status = validator.main(argv)
+        except SystemExit as e:
+            status = "SystemExit(%s)" % e.code
+        except Exception as e:  # noqa
+            status = "raised %s: %s" % (type(e).__name__, str(e)[:80])
+        finally:
+            sys.stdin = saved
+        want = 1 if invalid else 0
+        ctx.res.sig("validator-%s|%d|%s" % (mode, invalid, status))
+        if status != want or err.prints != invalid:
+            ctx.res.violate("validator-status-or-messages",
+                            {"files": files, "family": "validator",
+                             "mode": mode},
+                            {"status": want, "messages": invalid},
+                            {"status": status, "messages": err.prints},
+                            detail="mode=%s stderr=%r"
+                            % (mode, err.getvalue()[:200]),
+                            vsig="validator|%s|%s" % (mode, status))
 
 
 # ---------------------------------------------------------------------------
@@ -372,8 +451,16 @@ def replay(ctx, case):
             with open(os.path.join(d, n), "w") as f:
                 f.write(t)
         schema = cc.load_schema(c06.DEFINE_SCHEMA)
-        cls, e = run_entry(lambda: ZConfig.loadConfig(
-            schema, os.path.join(d, "a.conf")))
+        if case.get("entry") == "nourl":
+            top = case["files"].get("a.conf", "")
+            for n in ("a.conf", "b.conf", "c.conf"):
+                top = top.replace("%include " + n + "\n",
+                                  "%include " + os.path.join(d, n) + "\n")
+            cls, e = run_entry(lambda: ZConfig.loadConfigFile(
+                schema, io.StringIO(top)))
+        else:
+            cls, e = run_entry(lambda: ZConfig.loadConfig(
+                schema, os.path.join(d, "a.conf")))
     elif fam == "validator":
         return
     else:
